@@ -161,6 +161,20 @@ Theorem C11_limit_only_shorter : forall lim v6 qlen raw,
 Proof. exact limit_only_shorter. Qed.
 Print Assumptions C11_limit_only_shorter.
 
+(* include=<v1>,<v2>,...: accepted iff every value is lessSpecifics or
+   moreSpecifics; a section is requested iff its name occurs (first `include` parameter) *)
+Theorem C11_include_param : forall ps inc,
+  rq_parse_include ps = Some inc <->
+  match rq_get ps kw_include with
+  | None => inc = MkInc false false
+  | Some p =>
+    (forall v, In v (pc_split 44 (p_val p)) -> v = kw_less_specifics \/ v = kw_more_specifics) /\
+    (i_less inc = true <-> In kw_less_specifics (pc_split 44 (p_val p))) /\
+    (i_more inc = true <-> In kw_more_specifics (pc_split 44 (p_val p)))
+  end.
+Proof. exact include_param_spec. Qed.
+Print Assumptions C11_include_param.
+
 Theorem C11_unknown_param_refused : forall lim v6 qlen raw p,
   In p (rq_params raw) ->
   pc_bytes_eqb (p_key p) kw_select = false -> pc_bytes_eqb (p_key p) kw_discard = false ->
